@@ -11,7 +11,7 @@
           28 = C18_int_text / C18_float_text / C18_nonnumeric: _try_make_number types a cell wrongly
           3  = input outside the stated regime (harness bug) *)
 From Coq Require Import ZArith List Bool String Ascii.
-From PV Require Export Base.NpSearch C18.Model C18.Spec.
+From PV Require Export Base.NpSearch C18.Model C18.Spec C18.Ref.
 Import ListNotations.
 Open Scope Z_scope.
 
@@ -34,77 +34,26 @@ Record case := { cid : Z; cin : input; cobs : observed }.
 
 Definition flag (code : Z) (ok : bool) : list Z := if ok then [] else [code].
 
-(* ---- reference oracles (any oracles satisfying Codec_OK / Text_OK / Csv_OK give the same results on
-   well-formed inputs, by the theorems; these are the ones the comparator computes with) ---- *)
-Definition ch_semi : ascii := ";"%char.
-Definition ch_comma : ascii := ","%char.
-Definition ftok_text (f : ftok) : list ascii :=
-  match f with
-  | FFin neg m e => "f"%char :: (if neg then ch_minus else ch_plus) :: show_int m ++ ch_comma :: show_int e
-  | FNaN => ["n"%char]
-  | FInf neg => [if neg then "q"%char else "p"%char]
-  end.
-Definition scalar_text (x : scalar) : list ascii :=
-  match x with
-  | SBool b => ["b"%char; if b then "1"%char else "0"%char]
-  | SInt z => "i"%char :: show_int z
-  | SFlt f => ftok_text f
-  end ++ [ch_semi].
-(* split at every [sep]; cur is the current token, reversed *)
-Fixpoint split_at (sep : ascii) (l cur : list ascii) : list (list ascii) :=
-  match l with
-  | [] => [rev cur]
-  | c :: r => if Ascii.eqb c sep then rev cur :: split_at sep r [] else split_at sep r (c :: cur)
-  end.
-Definition read_int (l : list ascii) : option Z :=
-  match l with
-  | c :: r => if Ascii.eqb c ch_minus then (if isdigit r then Some (- digits_val r) else None)
-              else if isdigit l then Some (digits_val l) else None
-  | [] => None
-  end.
-Definition scalar_of_text (l : list ascii) : option scalar :=
-  match l with
-  | t :: r =>
-      match code t with
-      | 98 => match r with [d] => Some (SBool (code d =? 49)) | _ => None end
-      | 105 => option_map SInt (read_int r)
-      | 110 => Some (SFlt FNaN)
-      | 112 => Some (SFlt (FInf false))
-      | 113 => Some (SFlt (FInf true))
-      | 102 => match r with
-               | sg :: r' => match split_at ch_comma r' [] with
-                             | [a; b] => match read_int a, read_int b with
-                                         | Some m, Some e => Some (SFlt (FFin (Ascii.eqb sg ch_minus) m e))
-                                         | _, _ => None
-                                         end
-                             | _ => None
-                             end
-               | [] => None
-               end
-      | _ => None
-      end
-  | [] => None
-  end.
-Definition ref_frombuffer (dt : dtype) (data : list ascii) : option (list scalar) :=
-  match rev (split_at ch_semi data []) with
-  | [] :: toks => mapM scalar_of_text (rev toks)          (* the text ends with a separator *)
-  | _ => None
-  end.
-Definition ref_codec : codec :=
-  mkcodec (fun _ el => List.concat (map scalar_text el)) ref_frombuffer l2s (fun s => Some (s2l s)).
-Definition ref_text : textlayer jtree := mktext jtree (fun t => t) Some (fun _ => false).
-
 (* strings as lists of byte codes, for case files (tabs, quotes, UTF-8) *)
 Definition sl (l : list Z) : string := l2s (map chr l).
 
 Definition top_eqb (a b : list (key * pyval)) : bool :=
   list_eqb (fun x y => key_eqb (fst x) (fst y) && pyval_eqb (snd x) (snd y)) a b.
 
-(* model row (expected) against observed row, in order *)
+(* model row (expected) against observed row, as finite maps: the order of the columns other than the
+   requested first one is not part of the property (clause 25 checks the first column) *)
 Definition orow_match (m o : list (string * cell)) : bool :=
-  list_eqb (fun x y => String.eqb (fst x) (fst y) && cell_match (snd x) (snd y)) m o.
+  (zlen m =? zlen o) && nodup_b (map fst o) &&
+  forallb (fun kc => match lookup String.eqb (fst kc) o with
+                     | Some c' => cell_match (snd kc) c'
+                     | None => false
+                     end) m.
 Definition simple_match (m o : list (Z * cell)) : bool :=
-  list_eqb (fun x y => (fst x =? fst y) && cell_match (snd x) (snd y)) m o.
+  (zlen m =? zlen o) && znodup_b (map fst o) &&
+  forallb (fun kc => match lookup Z.eqb (fst kc) o with
+                     | Some c' => cell_match (snd kc) c'
+                     | None => false
+                     end) m.
 
 Definition char_ok (c : ascii) : bool := ((32 <=? code c) && (code c <=? 126)) || (code c =? 9).
 Definition text_ok (s : string) : bool := forallb char_ok (s2l s).
